@@ -35,7 +35,7 @@ PROPS["C10"] = dict(
           "distinct = hash of the canonical case descriptor"),
     assumptions=["certificate-transparency-go's tls.Marshal and the hand-written vfref encoder are correct renderings of RFC 6962"],
     units=[
-        rapid("root", ".", "^TestVerifC10EntryRoundTrip$", 4000, 5000),
+        rapid("root", ".", "^TestVerifC10EntryRoundTrip$", 4000, 1200),
         rapid("root", ".", "^TestVerifC10DecodeBytes$", 20000, 40000),
         rapid("root", ".", "^TestVerifC10Extensions$", 10000, 30000),
         rapid("root", ".", "^TestVerifC10TilePath$", 10000, 30000),
